@@ -160,6 +160,13 @@ func runProperty(spec *PropSpec, tier string, seed uint64) int {
 			fmt.Printf("  case=%s sig=%s\n  %s\n", v.Case, v.Sig, firstLines(v.Detail, 12))
 		}
 	}
+	bySig := map[string]int{}
+	for _, v := range out.violations {
+		bySig[v.Sig]++
+	}
+	for sg, n := range bySig {
+		fmt.Printf("  violations by signature: %-60s %d\n", sg, n)
+	}
 	for _, k := range kf.Findings {
 		if k.Property == spec.ID && k.Status == "open" && knownHit[k.ID] > 0 {
 			fmt.Printf("KNOWN-FINDING: property=%s %s (%d occurrences this run)\n", spec.ID, k.What, knownHit[k.ID])
